@@ -1,6 +1,7 @@
 import Py4hwV.Proofs.C12Int
 import Py4hwV.Proofs.C12FP
 import Py4hwV.Proofs.C12Ieee
+import Py4hwV.Proofs.C12Enc
 /-
   C12 — Number-format helpers are bit-exact and arithmetically exact.
 
@@ -514,5 +515,51 @@ theorem dp_decode_spec (b : Nat) (h : b < 2^64) : FPH.ieee754_to_dp b = IEEE.dec
 
 example : FPH.ieee754_to_sp 0x3FC00000 = .fin false ⟨0xC00000, -23⟩ := by decide     -- 1.5
 example : IEEE.decode IEEE.single 0x80000001 = .fin true ⟨1, -149⟩ := by decide        -- −2^-149
+
+/-! #### encode ∘ decode (FloatingPointHelper).  The loops of `fp_to_parts` have the closed form `fp_to_parts_spec`
+     (Proofs/C12Enc.lean): on `N·2^k` with `2^j ≤ N < 2^(j+1)` they end with exponent `j+k` and mantissa `N·2^-j`. -/
+
+/-- **encode ∘ decode = id, single precision**: every non-NaN 32-bit pattern, both zeros, all subnormals, ±inf -/
+theorem sp_encode_decode (b : Nat) (hb : b < 2^32) (hnan : IEEE.isNaN IEEE.single b = false) :
+    FPH.sp_to_ieee754 (IEEE.decode IEEE.single b) = some (b : Int) := by
+  have hs : IEEE.signOf IEEE.single b < 2 := by unfold IEEE.signOf; omega
+  unfold FPH.sp_to_ieee754 FPH.sp_to_ieee754_parts
+  rw [parts_of_decode FPH.spCfg IEEE.single spCfg_ok b hs hnan]
+  simp only [bind, Option.bind, pure]
+  have := assemble_fields (IEEE.signOf IEEE.single b) (IEEE.expOf IEEE.single b) (IEEE.manOf IEEE.single b) 8 23
+    (Nat.mod_lt _ (by decide)) (Nat.mod_lt _ (by decide))
+  rw [show ((8 + 23 : Nat)) = 31 from rfl] at this
+  rw [this]
+  congr 2
+  unfold IEEE.signOf IEEE.expOf IEEE.manOf IEEE.single
+  simp only
+  omega
+
+theorem dp_encode_decode (b : Nat) (hb : b < 2^64) (hnan : IEEE.isNaN IEEE.double b = false) :
+    FPH.dp_to_ieee754 (IEEE.decode IEEE.double b) = some (b : Int) := by
+  have hs : IEEE.signOf IEEE.double b < 2 := by unfold IEEE.signOf; omega
+  unfold FPH.dp_to_ieee754 FPH.dp_to_ieee754_parts
+  rw [parts_of_decode FPH.dpCfg IEEE.double dpCfg_ok b hs hnan]
+  simp only [bind, Option.bind, pure]
+  have := assemble_fields (IEEE.signOf IEEE.double b) (IEEE.expOf IEEE.double b) (IEEE.manOf IEEE.double b) 11 52
+    (Nat.mod_lt _ (by decide)) (Nat.mod_lt _ (by decide))
+  rw [show ((11 + 52 : Nat)) = 63 from rfl] at this
+  rw [this]
+  congr 2
+  unfold IEEE.signOf IEEE.expOf IEEE.manOf IEEE.double
+  simp only
+  omega
+
+/-- … composed with the decoder theorems: the helper's own round trip on every non-NaN pattern -/
+theorem sp_roundtrip (b : Nat) (hb : b < 2^32) (hnan : IEEE.isNaN IEEE.single b = false) :
+    FPH.sp_to_ieee754 (FPH.ieee754_to_sp b) = some (b : Int) := by
+  rw [sp_decode_spec b hb]; exact sp_encode_decode b hb hnan
+
+theorem dp_roundtrip (b : Nat) (hb : b < 2^64) (hnan : IEEE.isNaN IEEE.double b = false) :
+    FPH.dp_to_ieee754 (FPH.ieee754_to_dp b) = some (b : Int) := by
+  rw [dp_decode_spec b hb]; exact dp_encode_decode b hb hnan
+
+example : IEEE.isNaN IEEE.single 0x7F800000 = false ∧ IEEE.isNaN IEEE.single 0x7FC00000 = true ∧
+    IEEE.isNaN IEEE.single 0x80000001 = false := by decide
 
 end C12
